@@ -5,6 +5,7 @@
 
 #include "BaseGraph/fileio.hpp"
 
+#include <climits>
 #include <fstream>
 
 namespace vf {
@@ -145,6 +146,62 @@ inline GraphSpec ioSpecBig(Rng &r, bool directed) {
     }
     return g;
 }
+// what std::stoi would do with a token: value class
+enum NumClass { NC_SMALL, NC_NEGATIVE, NC_OVERFLOW, NC_NOT_A_NUMBER, NC_TOO_BIG_TO_ALLOCATE };
+inline NumClass classifyToken(const std::string &t) {
+    size_t i = 0;
+    while (i < t.size() && isspace((unsigned char)t[i])) ++i;
+    bool neg = false;
+    if (i < t.size() && (t[i] == '+' || t[i] == '-')) { neg = t[i] == '-'; ++i; }
+    size_t st = i;
+    long long v = 0;
+    bool over = false;
+    while (i < t.size() && isdigit((unsigned char)t[i])) {
+        v = v * 10 + (t[i] - '0');
+        if (v > (long long)INT_MAX + 1) over = true;
+        if (v > (1LL << 40)) v = 1LL << 40;
+        ++i;
+    }
+    if (i == st) return NC_NOT_A_NUMBER;
+    if (over || (!neg && v > INT_MAX)) return NC_OVERFLOW;
+    if (neg && v > 0) return NC_NEGATIVE;
+    if (v > 2000) return NC_TOO_BIG_TO_ALLOCATE;
+    return NC_SMALL;
+}
+// keeps vertex indices "small enough to allocate": drops lines whose first two
+// tokens (as the loader's tokeniser sees them) are numbers in (2000, INT_MAX]
+inline std::string filterAllocatable(const std::string &text) {
+    std::string out;
+    size_t st = 0;
+    const char *ws = " \t\n\r\f\v";
+    while (st <= text.size()) {
+        size_t nl = text.find('\n', st);
+        std::string line = nl == std::string::npos ? text.substr(st) : text.substr(st, nl - st);
+        bool drop = false;
+        if (!(line.size() && line[0] == '#')) {
+            size_t p1 = line.find_first_not_of(ws);
+            if (p1 != std::string::npos) {
+                size_t p2 = line.find_first_of(ws, p1);
+                std::string t1 = line.substr(p1, p2 == std::string::npos ? std::string::npos : p2 - p1);
+                if (classifyToken(t1) == NC_TOO_BIG_TO_ALLOCATE) drop = true;
+                size_t p3 = p2 == std::string::npos ? std::string::npos : line.find_first_not_of(ws, p2);
+                if (p3 != std::string::npos) {
+                    size_t p4 = line.find_first_of(ws, p3);
+                    std::string t2 = line.substr(p3, p4 == std::string::npos ? std::string::npos : p4 - p3);
+                    if (classifyToken(t2) == NC_TOO_BIG_TO_ALLOCATE) drop = true;
+                }
+            }
+        }
+        if (!drop) {
+            out += line;
+            if (nl != std::string::npos) out += "\n";
+        }
+        if (nl == std::string::npos) break;
+        st = nl + 1;
+    }
+    return out;
+}
+
 inline unsigned usedSize(const GraphSpec &s) {
     unsigned m = 0;
     for (auto &e : s.edges) m = std::max(m, std::max(e.first, e.second) + 1);
